@@ -155,6 +155,65 @@ static std::string padding_oracle(const std::string& text, PdbReadOptions ro, bo
 
 static std::string handle(const std::string& cmd, const std::string& args) {
   std::vector<std::string> w = words(args);
+  if (cmd == "atomline") {   // het serial hexname element altloc hexres hexchain seqnum icode hexseg charge x y z occ b
+        gemmi::Structure st;
+    st.models.emplace_back(1);
+    st.models[0].chains.emplace_back(hv::hex_decode(w.at(6)));
+    gemmi::Chain& ch = st.models[0].chains.back();
+    gemmi::Residue r;
+    r.name = hv::hex_decode(w.at(5));
+    r.seqid.num = (int) hv::to_ll(w.at(7));
+    r.seqid.icode = (char) hv::to_ll(w.at(8));
+    r.segment = hv::hex_decode(w.at(9));
+    r.het_flag = hv::to_ll(w.at(0)) ? 'H' : 'A';
+    gemmi::Atom a;
+    a.serial = (int) hv::to_ll(w.at(1));
+    a.name = hv::hex_decode(w.at(2));
+    a.element = gemmi::Element(w.at(3).c_str());
+    a.altloc = (char) hv::to_ll(w.at(4));
+    a.charge = (signed char) hv::to_ll(w.at(10));
+    a.pos = gemmi::Position(std::atof(w.at(11).c_str()), std::atof(w.at(12).c_str()), std::atof(w.at(13).c_str()));
+    a.occ = (float) std::atof(w.at(14).c_str());
+    a.b_iso = (float) std::atof(w.at(15).c_str());
+    r.atoms.push_back(a);
+    ch.residues.push_back(r);
+    gemmi::PdbWriteOptions opt = gemmi::PdbWriteOptions::minimal();
+    opt.preserve_serial = true;
+    std::string text;
+    try {
+      text = gemmi::make_pdb_string(st, opt);
+    } catch (std::exception&) {
+      return "EXC";
+    }
+    size_t p0 = text.rfind("\nATOM  ");
+    size_t p1 = text.rfind("\nHETATM");
+    size_t p = p0 == std::string::npos ? p1 : (p1 == std::string::npos ? p0 : std::max(p0, p1));
+    if (p == std::string::npos) {
+      if (text.compare(0, 6, "ATOM  ") == 0 || text.compare(0, 6, "HETATM") == 0) p = 0; else return "no atom line";
+    } else {
+      ++p;
+    }
+    size_t e = text.find('\n', p);
+    std::string line = text.substr(p, e - p);
+    std::string out = "L " + hv::hex_encode(line) + " R ";
+    try {
+      std::string one = line + "\n";
+      gemmi::Structure s2 = gemmi::read_pdb_from_memory(one.data(), one.size(), "x");
+      if (s2.models.empty() || s2.models[0].chains.empty() || s2.models[0].chains[0].residues.empty() ||
+          s2.models[0].chains[0].residues[0].atoms.empty()) return out + "none";
+      const gemmi::Chain& c2 = s2.models[0].chains[0];
+      const gemmi::Residue& r2 = c2.residues[0];
+      const gemmi::Atom& a2 = r2.atoms[0];
+      out += std::string(1, r2.het_flag) + " " + std::to_string(a2.serial) + " " + hv::hex_encode(a2.name) + " " +
+             std::to_string((int) (unsigned char) a2.altloc) + " " + hv::hex_encode(r2.name) + " " + hv::hex_encode(c2.name) + " " +
+             (r2.seqid.num.has_value() ? std::to_string(*r2.seqid.num) : std::string("none")) + " " +
+             std::to_string((int) (unsigned char) r2.seqid.icode) + " " + hv::hex_encode(r2.segment) + " " +
+             std::to_string((int) a2.charge) + " " + a2.element.uname();
+    } catch (std::exception&) {
+      out += "EXC";
+    }
+    return out;
+  }
   if (cmd == "ser") {          // n -> hex(encode) read_serial("%5s" field in a line)
     int n = (int)to_ll(w.at(0));
     std::array<char,8> e = encode_serial_in_hybrid36(n);
@@ -246,6 +305,7 @@ static std::string handle(const std::string& cmd, const std::string& args) {
     g.big_serial = flags & 1;
     PdbWriteOptions wo = wopt_from_mask(wm);
     PdbReadOptions ro = ropt_from_mask(rm);
+    g.link_ids = wo.use_linkr;
     Structure st = ps::gen_structure(seed, g);
     if (wo.minimal_file) { st.info.clear(); st.resolution = 0; }   // no HEADER/TITLE/REMARK records: nothing carries these
     if (!wo.cryst1_record) {       // without CRYST1 there is no cell: symmetry codes and distances of LINK are not kept
